@@ -704,7 +704,8 @@ void sampled_cell_eps(const Cell& c, Rng& r) {
     " threshold=" + str(thr) + " worst_err=" + str(worst1) + " worst_pmf_err=" + str(worst2);
   VF_CHECK(f1 >= thr, kp + "rank-error-exceeds-published-single-sided-too-often", res);
   VF_CHECK(f2 >= thr, kp + "pmf-error-exceeds-published-double-sided-too-often", res);
-  mean_rank_test(kp, ctx, t, zq, zacc, std::vector<double>(zq.size(), eps1 / 4), 6.5);
+  if (c.trials >= 30) mean_rank_test(kp, ctx, t, zq, zacc, std::vector<double>(zq.size(), eps1 / 4), 6.5);   // too few trials: no meaningful z-test
+  if (c.cfg >= 32768) { count(fam + "_smp_cells_k_ge_32768"); if (worst1 > 0) count(fam + "_smp_cells_k_ge_32768_with_rank_error"); }
   count(fam + "_smp_cells");
   if (c.merge) count(fam + "_smp_cells_merged");
   if (c.merge == 2) count(fam + "_smp_cells_mixed_k");
